@@ -2,6 +2,8 @@
 import glob, json, os
 V = os.path.dirname(os.path.dirname(os.path.abspath(__file__)))
 HIST = {
+    "C11b-m1": "the clause `saved-where` (the file is written under the very name the request is looked up by) was added to the from_config contract when this change was delivered; the bounded fault experiments report it independently (no cache file under the requested name after the request)",
+    "C03b-m2": "the same change leaves C12's prover undecided (a list where a set was: outside the subset) and was missed by C12's bounded check at first (cells compared as sets); bounded C12 now rejects a visited_cells list that names a cell twice; C03 and C13 reported it from the start",
     "C16b-m1": "undecided for the prover at first (the collection's member type had no configuration field: the changed body left the subset), reported by the bounded stand-in; the member type now carries its own configuration and the obligation C16.lengths fails",
     "C16b-m2": "not in the bounded scope before this change was delivered (A-alias: not decided by proof); bounded C16 now lets the caller extend the list it handed to the constructor",
     "C06b-m2": "reported by the bounded decoder at first; CTT.to_tokens had been put under contract in the same session, its clauses now fail (they restate the length first, so a wrong length is a failed obligation instead of an out-of-range index)",
